@@ -351,6 +351,31 @@ func run(c *core.Ctx) {
 		}
 	}
 
+	// today's acceptLoop / Close race (SharedPort.tla with Bug "LateAccept")
+	probeN, probeLate, probeEx := 0, 0, ""
+	if c.Thorough() && !c.IsBroken() && c.Failures() == 0 {
+		probeN = 600
+		var err error
+		if probeLate, probeEx, err = spreplay.CloseRaceProbe(c.Tmp, probeN); err != nil {
+			c.Broken("G06 close race probe: %v", err)
+		}
+		c.Eval("closeRaceProbe", true)
+	}
+	if lst.LateHandlers > 0 || probeLate > 0 {
+		ex := lst.LateExample
+		if ex == "" {
+			ex = probeEx
+		}
+		msg := fmt.Sprintf("KNOWN OBSERVATION (G06): the real listener behaves like SharedPort.tla with Bug \"LateAccept\": a handler outlived Close (it logged after Close had returned) in %d of %d replayed runs and %d of %d probes -- acceptLoop's handlers.Add(1) can run after Close's handlers.Wait() has returned when a daemon connects while Close is under way; proposed fix: out/proposed/G06-close-waits-for-late-handlers.diff; e.g. %s", lst.LateHandlers, len(jobs), probeLate, probeN, ex)
+		c.Note(msg)
+		fmt.Println(msg)
+	}
+	c.Set("runs_showing_a_handler_outliving_Close", lst.LateHandlers)
+	if probeN > 0 {
+		c.Set("close_race_probes", probeN)
+		c.Set("close_race_probes_with_late_handler", probeLate)
+	}
+
 	conform := lst.Conform + rst.parsed + rst.executed + rst.hintConclusive + rst.ctx
 	c.Add("traces_validated_against_impl", conform)
 	c.Set("model_behaviours", nBeh)
